@@ -23,7 +23,8 @@ RULE = (
     "below the top tier, pairwise ties) x m.  Oracle: margins from the definition; dominating "
     "tiers by brute force over all candidate subsets.  Non-trivial = top tier of size >= 3, or a "
     "lower tier of size >= 3 (cycle below the top), or a pairwise tie, or a partial ballot that "
-    "leaves >= 2 candidates unlisted.  Distinct = SHA-1 of canonical case JSON."
+    "leaves >= 2 candidates unlisted.  The tiers / has-winner / winner queries are then repeated "
+    "on the same graph object in a generated order and judged against the same definitions.  Distinct = SHA-1 of canonical case JSON."
 )
 ASSUMPTIONS = [
     "ballots are untied; two candidates a ballot does not list contribute 0 to their margin",
@@ -49,7 +50,10 @@ def case(draw):
             extra.append({"r": [[c] for c in list(draw(st.permutations(top))) + rot], "w": w})
         ballots = (ballots + extra)[-8:]
     return {"cands": cands, "ballots": ballots, "m": draw(st.integers(1, len(cands))),
-            "rng": draw(S.rng_spec())}
+            "rng": draw(S.rng_spec()),
+            # the same graph object is asked again, in this order (answers are properties of the
+            # profile, so they may not depend on what was asked before)
+            "again": list(draw(st.permutations(["tiers", "has", "winner", "tiers", "winner"])))}
 
 
 def strategy(tier):
@@ -106,6 +110,28 @@ def check(case):
             out.fail("condorcet", "get_condorcet_winner_raises", f"raised although {cw} beats everyone")
     if (len(tiers[0]) == 1) != (cw is not None):
         out.fail("oracle", "self_check", "brute-force tiers and Condorcet definition disagree")  # guards the oracle
+    asked = ["tiers", "has", "winner"]
+    for q in case.get("again", ["winner", "tiers", "has"]):
+        if out.fails:
+            break
+        if q == "tiers":
+            gt2, exc, _ = E.call(g.dominating_tiers)
+            got2 = None if exc is not None else [sorted(str(c) for c in t) for t in gt2]
+            if got2 != tiers:
+                out.fail("dominating_tiers", "tiers_when_asked_again",
+                         f"after {asked}: got {got2 if exc is None else repr(exc)}, brute force gives {tiers}")
+        elif q == "has":
+            if bool(g.has_condorcet_winner()) != (cw is not None):
+                out.fail("condorcet", "has_condorcet_winner_when_asked_again", f"after {asked}: definition gives {cw}")
+        else:
+            try:
+                w = g.get_condorcet_winner()
+                if cw is None or str(w) != cw:
+                    out.fail("condorcet", "get_condorcet_winner_when_asked_again", f"after {asked}: returned {w}, definition gives {cw}")
+            except ValueError:
+                if cw is not None:
+                    out.fail("condorcet", "get_condorcet_winner_when_asked_again", f"after {asked}: raised although {cw} beats everyone")
+        asked.append(q)
 
     # ---- DominatingSets -----------------------------------------------------------------------
     res = E.run("DominatingSets", prof, {}, case["rng"])
